@@ -85,6 +85,8 @@ type Case struct {
 	NRD                   int // 1, 2: directory handles do NOT implement fs.ReadDirFile (2: and fsys.ReadDir returns a NIL slice for an empty directory): the walk falls back to fsys.ReadDir (whole listing at once);
 	// the only read fault that exists then is "the listing cannot be read" = Read[d][0]
 	OUT  int // (with ABS) 1: DirsToSkip, 2: PathsToExtract additionally names an absolute path that lies under no scan root: the scan must be refused
+	NS   int  // 1: ScanConfig.Stats is left nil (Scan substitutes a no-op collector; the visit count is then unobservable: vis=?);
+	// 2: the same through the entry point filesystem.Run itself (no Scan glue, results sorted by the harness as Scan would)
 	REAL bool // the tree is materialised in a temporary directory and scanned through scalibrfs.RealFSScanRoots (no faults, one root)
 	Paths, Skip           []string
 	HasRx, HasGl          bool
@@ -181,8 +183,8 @@ func keys(m map[string]bool) []string {
 func (c *Case) Line() string {
 	var sb strings.Builder
 	fmt.Fprintf(&sb, "walk ug=%d,isd=%d,rs=%d,mx=%d,mi=%d,eofs=%d,cb=%d,ca=%d,next=%d,ek=%d,abs=%d,sap=%d", b(c.UG), b(c.ISD), b(c.RS), c.MX, c.MI, b(c.EOFS), b(c.CB), c.CA, c.NExt, c.EK, b(c.ABS), b(c.SAP))
-	if c.NRD > 0 || c.OUT > 0 || c.REAL { // only printed when set, so that older case lines (corpus, saved seeds) stay byte-identical
-		fmt.Fprintf(&sb, ",nrd=%d,out=%d,real=%d", c.NRD, c.OUT, b(c.REAL))
+	if c.NRD > 0 || c.OUT > 0 || c.REAL || c.NS > 0 { // only printed when set, so that older case lines (corpus, saved seeds) stay byte-identical
+		fmt.Fprintf(&sb, ",nrd=%d,out=%d,real=%d,ns=%d", c.NRD, c.OUT, b(c.REAL), c.NS)
 	}
 	fmt.Fprintf(&sb, " %s %s", hexPaths(c.Paths, ";"), hexPaths(c.Skip, ";"))
 	set := func(has bool, s []string) string {
@@ -357,6 +359,8 @@ func ParseLine(l string) *Case {
 			c.OUT = n
 		case "real":
 			c.REAL = n == 1
+		case "ns":
+			c.NS = n
 		}
 	}
 	c.Paths = unhexPaths(t[2], ";")
@@ -862,13 +866,37 @@ func Run(c *Case, mk func(*scalibr.ScanConfig), slow time.Duration) string {
 	cfg := &scalibr.ScanConfig{FilesystemExtractors: exs, UseGitignore: c.UG, IgnoreSubDirs: c.ISD, ReadSymlinks: c.RS, MaxFileSize: c.MX, MaxInodes: c.MI,
 		ErrorOnFSErrors: c.EOFS, StoreAbsolutePath: c.SAP, Stats: col, PathsToExtract: paths, DirsToSkip: skip, ScanRoots: roots, Capabilities: &plugin.Capabilities{}}
 	mk(cfg)
+	if c.NS > 0 {
+		cfg.Stats = nil
+	}
 	body := func() (out string) {
 		defer func() {
 			if e := recover(); e != nil {
 				out = "err=panic"
 			}
 		}()
-		r := scalibr.New().Scan(ctx, cfg)
+		var r *scalibr.ScanResult
+		if c.NS == 2 {
+			// the entry point below Scan: no glue (refusals, default collector), results as filesystem.Run returns them, put into Scan's order here
+			inv, sts, err := filesystem.Run(ctx, &filesystem.Config{Extractors: cfg.FilesystemExtractors, ScanRoots: cfg.ScanRoots, PathsToExtract: cfg.PathsToExtract,
+				IgnoreSubDirs: cfg.IgnoreSubDirs, DirsToSkip: cfg.DirsToSkip, SkipDirRegex: cfg.SkipDirRegex, SkipDirGlob: cfg.SkipDirGlob, UseGitignore: cfg.UseGitignore,
+				Stats: nil, ReadSymlinks: cfg.ReadSymlinks, MaxInodes: cfg.MaxInodes, MaxFileSize: cfg.MaxFileSize, StoreAbsolutePath: cfg.StoreAbsolutePath,
+				ErrorOnFSErrors: cfg.ErrorOnFSErrors})
+			r = &scalibr.ScanResult{Status: &plugin.ScanStatus{Status: plugin.ScanStatusSucceeded}}
+			if err != nil {
+				r.Status = &plugin.ScanStatus{Status: plugin.ScanStatusFailed, FailureReason: err.Error()} // results returned next to an error are not to be used
+			} else {
+				for _, p := range inv.Packages {
+					sort.Strings(p.Locations)
+				}
+				sort.SliceStable(inv.Packages, func(i, j int) bool { return scalibr.CmpPackages(inv.Packages[i], inv.Packages[j]) < 0 })
+				sort.SliceStable(sts, func(i, j int) bool { return sts[i].Name < sts[j].Name })
+				sort.SliceStable(inv.Findings, func(i, j int) bool { return inv.Findings[i].Adv.ID.Reference < inv.Findings[j].Adv.ID.Reference })
+				r.Inventory, r.PluginStatus = inv, sts
+			}
+		} else {
+			r = scalibr.New().Scan(ctx, cfg)
+		}
 		if r.Status.Status != plugin.ScanStatusSucceeded {
 			msg := r.Status.FailureReason
 			cls := "fs"
@@ -919,6 +947,9 @@ func Run(c *Case, mk func(*scalibr.ScanConfig), slow time.Duration) string {
 	}()
 	if !strings.Contains(body, "pkgs=") {
 		body += " pkgs=- st=- fnd=-"
+	}
+	if c.NS > 0 {
+		return fmt.Sprintf("%s vis=? calls=%s", body, hx.Join(calls, ";"))
 	}
 	return fmt.Sprintf("%s vis=%d calls=%s", body, col.n, hx.Join(calls, ";"))
 }
